@@ -79,6 +79,8 @@ class BigTtlTriplesYielder(BaseTriplesYielder):
                                allow_untyped_numbers=self._allow_untyped_numbers,
                                raise_error_if_no_corners=False)
                 )
+        if self._state != _WAITING_FOR_SUBJ:
+            raise ValueError("Malformed file. The last statement is not closed with '.'")
 
     def _clean_line(self, str_line):
         result = _OTHER_BLANKS.sub(" ", str_line)
@@ -259,15 +261,23 @@ class BigTtlTriplesYielder(BaseTriplesYielder):
 
     def _process_prefix_line(self, line):
         pieces = line.split(" ")
+        self._check_directive_alone_in_its_line(line, pieces, expected_pieces=4)
         prefix = pieces[1] if not pieces[1].endswith(":") else pieces[1][: - 1]
         base_url = remove_corners(pieces[2])
         self._prefixes[prefix] = base_url
 
     def _process_base_line(self, line):
         pieces = line.split(" ")
+        self._check_directive_alone_in_its_line(line, pieces, expected_pieces=3)
         # base_url = pieces[1] if not pieces[1].endswith(":") else pieces[1][: - 1]
         # base_url = remove_corners(pieces[2])
         self._base = remove_corners(pieces[1])
+
+    @staticmethod
+    def _check_directive_alone_in_its_line(line, pieces, expected_pieces):
+        # "@prefix p: <ns> ." / "@base <ns> ." : anything else in the line would be silently lost
+        if len(pieces) != expected_pieces or pieces[-1] != ".":
+            raise ValueError("Malformed file. A directive is expected to be alone in its line: " + line)
 
     def _process_comment_line(self, line):
         pass  # At this point, just ignore it.
